@@ -22,7 +22,7 @@ inductive Target
   | date | datetime | time | timedelta | decimal | fraction | uuid
   | iterable | iterator | tuple | sequence | collection | mapping
   | enum | text | str | bytes | number | int | float | pattern | purepath
-  | callable | generic | mappingTypes | builtinSub | stdlibSub
+  | callable | generic | mappingTypes | builtinSub | stdlibSub | typeSub
   deriving DecidableEq, Repr, Inhabited
 
 /-- Column of the target in `Row.sub` (the order of `harness/_extract_inspect.py: targets`). -/
@@ -31,12 +31,12 @@ def Target.idx : Target → Nat
   | .iterable => 7 | .iterator => 8 | .tuple => 9 | .sequence => 10 | .collection => 11 | .mapping => 12
   | .enum => 13 | .text => 14 | .str => 15 | .bytes => 16 | .number => 17 | .int => 18 | .float => 19
   | .pattern => 20 | .purepath => 21 | .callable => 22 | .generic => 23 | .mappingTypes => 24
-  | .builtinSub => 25 | .stdlibSub => 26
+  | .builtinSub => 25 | .stdlibSub => 26 | .typeSub => 27
 
 def allTargets : List Target :=
   [.date, .datetime, .time, .timedelta, .decimal, .fraction, .uuid, .iterable, .iterator, .tuple, .sequence,
    .collection, .mapping, .enum, .text, .str, .bytes, .number, .int, .float, .pattern, .purepath, .callable,
-   .generic, .mappingTypes, .builtinSub, .stdlibSub]
+   .generic, .mappingTypes, .builtinSub, .stdlibSub, .typeSub]
 
 /-- One base object of the catalogue. -/
 structure Row where
@@ -80,6 +80,7 @@ structure Lattice where
   finalId : Nat
   classVarId : Nat
   callableId : Nat     -- typing.Callable
+  abcCallableId : Nat  -- collections.abc.Callable
   anyId : Nat
   noneId : Nat         -- the object None
   noneTypeId : Nat
@@ -200,9 +201,17 @@ def classVarArg : Ann → Ann
   | .classvar x => normTv L x
   | a => a
 
-/-- `if istypealiastype(actual): actual = actual.__value__` (one level, inspection.py:118-119). -/
-def aliasValue : Ann → Ann
-  | .alias v => v
+/-- Strip NewType and alias layers, in any interleaving and of any length. -/
+def strip : Ann → Ann
+  | .newtype a => strip a
+  | .alias a => strip a
+  | a => a
+
+/-- `while istypealiastype(actual): actual = resolve_supertype(actual.__value__)` (inspection.py:118-120): each round
+    takes the value of the alias and strips the NewTypes in front of it, until something that is neither is reached —
+    i.e. `strip` of the alias's value. -/
+def aliasLoop : Ann → Ann
+  | .alias v => strip v
   | a => a
 
 /-- `tp.get_origin(actual) or actual`. -/
@@ -238,11 +247,19 @@ def iscallableM : Ann → Bool
 
 def genericsStep (a : Ann) : Ann := if isbuiltintypeM L a then a else checkGenerics L a
 
-def callableStep (a : Ann) : Ann := if iscallableM L a then .base L.callableId else a
+/-- `iscallable(actual) and (actual is abc_Callable or not inspect.isclass(actual) or issubclass(actual, type))`
+    (inspection.py:128-135): `type[...]` and metaclasses stay `typing.Callable`; an ordinary class which merely defines
+    `__call__` is still that class. -/
+def toTypingCallable : Ann → Bool
+  | .base i => L.callable i &&
+      (i == L.abcCallableId || !L.flag (·.inspectIsClass) i || L.tri .typeSub i == 1)
+  | _ => false
+
+def callableStep (a : Ann) : Ann := if toTypingCallable L a then .base L.callableId else a
 
 /-- `origin(annotation)` (inspection.py:88-130). -/
 def originM (a : Ann) : Ann :=
-  callableStep L (genericsStep L (getOriginOr L (aliasValue (classVarArg L (resolveSupertype a)))))
+  callableStep L (genericsStep L (getOriginOr L (aliasLoop (classVarArg L (resolveSupertype a)))))
 
 /-! ## 4. Class-valued predicates -/
 
@@ -294,12 +311,10 @@ def orMapping : Nat → Nat → Option Bool
 def ismappingtypeM (a : Ann) : Option Bool :=
   orMapping (issubTri L .mappingTypes (originM L a)) (issubTri L .mapping (originM L a))
 
-/-- Group B: `_safe_issubclass(t, X)` on the object itself — no `origin`, no NewType resolution
+/-- Group B: `_safe_issubclass(origin(t), X)` — like Group A, but a TypeError is answered `False`
     (isenumtype, istexttype, isstringtype, isbytestype, isnumbertype, isintegertype, isfloattype,
     ispatterntype, ispathtype). -/
-def predB (X : Target) : Ann → Bool
-  | .base i => L.tri X i == 1
-  | _ => false
+def predB (X : Target) (a : Ann) : Bool := issubTri L X (originM L a) == 1
 
 def isenumtypeM := predB L .enum
 def istexttypeM := predB L .text
@@ -397,8 +412,8 @@ def isliteralM (a : Ann) : Bool :=
 /-- `isfinal` (inspection.py:590-602). -/
 def isfinalM (a : Ann) : Bool := (originM L a).isBaseId L.finalId
 
-/-- `should_unwrap` (inspection.py:943-949). -/
-def shouldUnwrapM (a : Ann) : Bool := !isliteralM L a && (isclassvartypeM L a || isfinalM L a)
+/-- `should_unwrap`: `any(x(obj) for x in (isclassvartype, isfinal))` (inspection.py:955-964). -/
+def shouldUnwrapM (a : Ann) : Bool := isclassvartypeM L a || isfinalM L a
 
 def isforwardrefM (a : Ann) : Bool := a.isFref
 def istypealiastypeM (a : Ann) : Bool := a.isAlias
@@ -557,12 +572,6 @@ def isoptionalWith (a : Ann) (nullarg : Bool) : Bool :=
 def isoptionaltypeM (a : Ann) : Option Bool := (nullArg L a).map (isoptionalWith L a)
 
 /-! ## 8. The runtime oracle -/
-
-/-- Strip NewType and alias layers, in any interleaving and of any length. -/
-def strip : Ann → Ann
-  | .newtype a => strip a
-  | .alias a => strip a
-  | a => a
 
 /-- `typing.get_origin(x) or x` as a base id, for the class-like forms. -/
 def tyOrigin : Ann → Option Nat
